@@ -21,7 +21,7 @@ OPEN = {
     "C02": ["C02_parse_sem for an ARBITRARY surface style -- proved for the canonical style (C02_canonical_text) and in layers for arbitrary styles (tokenizer under any padding, unknown attributes ignored, attribute order for three tags, dispatch, source order); the composition over all styles is not one theorem; frame rates enter as ufloat_rt"],
     "C03": ["C03_roundtrip_parsed is stated for parse results with durations below 2^20 s and plain unquoted SCTE35-* values (media_small: decidable, no reference to the float conversions); outside it (a duration of 12 days or more, an unquoted SCTE35-* value with a comma or quote, which the writer cannot express) the round trip is sampled by the correspondence check only",
             "byte-identical second serialisation and the order inside a key list: FALSE in general (known findings D20, D9-K1); keys are compared as sets, a map's keys are the reader's keys"],
-    "C04": ["C04_roundtrip carries floats_master p (decidable): it holds for every TIME-OFFSET the reader accepts and every FRAME-RATE with at most three decimals below 8192 (C04_float_hypotheses); a FRAME-RATE text with more decimals parses to a value the {:.3} writer cannot reproduce -- a property of the writer's format, sampled by the correspondence check; that the floats of a PARSED master playlist satisfy it is not threaded through the master parser (done for media playlists: C03_roundtrip_parsed)"],
+    "C04": ["C04_roundtrip carries floats_master p (decidable): it holds for every TIME-OFFSET the reader accepts and every FRAME-RATE with at most three decimals below 8192 (C04_float_hypotheses); a FRAME-RATE text with more decimals parses to a value the {:.3} writer cannot reproduce -- a property of the writer's format, sampled by the correspondence check; C04_roundtrip_parsed discharges the TIME-OFFSET part for parse results (threaded through the master parser) and keeps rates_ok p as the only hypothesis"],
     "C05": ["C05_cost: cost_parse s <= c1*|s| + c2*|items s|*K s -- no cost model was built; time scaling is MEASURED in the thorough tier (five input families at n and 4n, evidence field streams.time_scaling), not proved"],
     "C12": ["C12_restyle as ONE theorem over whole playlists: forall sty1 sty2 a, parse (render sty1 a) = parse (render sty2 a) -- proved per transformation: CRLF, blank lines, line padding, comments, redundant version tags, unknown tags (arbitrary text / item lists), and, for every attribute-list parser, any attribute order + any padding + unknown attributes (C12_any_attribute_syntax); the relative order of playlist-level tags and of the non-key tags of a segment is C12_tag_order (item level, media playlists; EXT-X-KEY and DISCONTINUITY-SEQUENCE excluded because they are position dependent); for master playlists the five lists are independent by construction (C02_source_order)"],
     "C14": ["C14_T for STREAM-INF / I-FRAME-STREAM-INF as an iff over all attribute lists: stream tags are by typing (BANDWIDTH / URI are required fields of the result); keys are an iff since C14_key_iff"],
